@@ -59,32 +59,29 @@ def call_by_contract(it, f, thm, args, kwargs, node):
     except Unsupported:
         key = None
     memo = ctx.ghost.setdefault("pure_calls", [])
-    if key is not None and thm.options.get("pure", True):
-        for k2, keep, outcome in memo:
-            if k2 == key:
-                if outcome[0] == "raise":
-                    raise E.PyRaise(outcome[1], None, getattr(node, "lineno", None))
-                return outcome[1]
     cases = thm.cases
     k = ctx.fork(len(cases)) if len(cases) > 1 else 0
     case = cases[k]
+    reuse = None
+    if key is not None and thm.options.get("pure", True):
+        for k2, keep, outcome in memo:
+            if k2 == key and outcome[0] == "return" and outcome[2] == k:
+                reuse = outcome[1]     # deterministic callee: the same arguments in the same case give the same result
     if case.when.strip() == "otherwise":
         ctx.assume(z3.Not(z3.Or(*[verify.formula(it, c.when, fr) for c in cases[:k]])) if k else z3.BoolVal(True))
     else:
         ctx.assume(verify.formula(it, case.when, fr))
     if case.raises is not None:
-        if key is not None:
-            memo.append((key, [fr.locals[p] for p in thm.params], ("raise", case.raises[0])))
         raise E.PyRaise(case.raises[0], None, getattr(node, "lineno", None))
     rty = thm.options.get("returns")
     if rty is None:
         raise Unsupported(f"contract {thm.name} used modularly needs options['returns']")
-    result = verify.make_param(ctx, ctx.fresh_name(f"ret_{f.__name__}"), rty, [])
+    result = reuse if reuse is not None else verify.make_param(ctx, ctx.fresh_name(f"ret_{f.__name__}"), rty, [])
     fr.locals["result"] = result
     for cname, clause in case.clauses():
         ctx.assume(verify.formula(it, clause, fr))
-    if key is not None:
-        memo.append((key, [fr.locals[p] for p in thm.params], ("return", result)))
+    if key is not None and reuse is None:
+        memo.append((key, [fr.locals[p] for p in thm.params], ("return", result, k)))
     ctx.ghost[f"ghost_ret_{f.__name__}"] = result
     return result
 
